@@ -30,6 +30,10 @@ class AnchorLost(Exception):
 
 
 NOTES = []
+# cut loops whose body assigns function locals the loop spec does not declare: those locals are havoced
+# without an invariant (sound over-approximation, but imprecise: a failure of such a VC only counts when the
+# counterexample reproduces on the real loops - see `check`)
+WEAK_FRAMES = []
 
 
 # (file relative to repo root, module name, harness file relative to /verif/kani)
@@ -260,8 +264,14 @@ def cut_loops_in_fn(src, fname, specs):
         declared = set(spec.get("modifies", [])) | set(spec.get("ghost_calls", []))
         found = assigned_targets(body)
         undeclared = {t for t in found if t not in declared}
-        if undeclared:
+        weak = sorted(t for t in undeclared if re.fullmatch(r"[A-Za-z_][A-Za-z0-9_]*", t) and t != "self")
+        if undeclared - set(weak):
             raise AnchorLost(f"{spec['id']}: loop body modifies undeclared target(s) {sorted(undeclared)}")
+        if weak:
+            # plain function locals (e.g. an accumulator added by a refactor): havoc them with no invariant
+            WEAK_FRAMES.append(spec["id"])
+            NOTES.append(f"E2 weak frame {spec['id']}: loop body assigns undeclared local(s) {weak}; havoced without invariant, failures of VCs through this loop count only when replayed on the real loops")
+        weak_havoc = "".join("    crate::verif_common::havoc_local(&mut " + t + ");\n" for t in weak)
         hook = spec["hook"]
         ctx = ", ".join(spec.get("context", []))
         mods = ", ".join("&mut " + m for m in spec.get("modifies_args", spec.get("modifies", [])))
@@ -283,6 +293,7 @@ def cut_loops_in_fn(src, fname, specs):
             "#[cfg(kani)] {\n"
             "    " + hook + "::init(__set" + ctx_sep + mods_sep + ");\n"
             "    let __rem: BitBoard = " + hook + "::havoc(__set" + ctx_sep + mods_sep + ");\n"
+            + weak_havoc +
             "    if !__rem.is_empty() {\n"
             "        let __x: Square = __rem.next_square().unwrap();\n"
             "        let mut __once = true;\n"
@@ -312,6 +323,7 @@ def make_scratch(prefix="verif-scratch-", log=None, cut=True, repo=None):
     base = os.environ.get("VERIF_SCRATCH_BASE", "/var/tmp")
     os.makedirs(base, exist_ok=True)
     d = tempfile.mkdtemp(prefix=prefix, dir=base)
+    del WEAK_FRAMES[:]
     subprocess.run(
         ["rsync", "-a", "--exclude", "/target", "--exclude", "/.git", repo.rstrip("/") + "/", d + "/"],
         check=True)
